@@ -14,6 +14,7 @@
    registered for the item.  Agents and replicas are covered by the correspondence run and the
    Python oracle only.  Statements only; each closed by a lemma of P_Discovery. *)
 From PyDcop Require Import Base Net M_Discovery P_Discovery.
+From PyDcop Require Import P_Discovery2 P_Discovery2A P_Discovery2R P_Discovery2C P_Discovery2T.
 
 (* In-flight invariant (DESIGN: disc_inv), computations: in every configuration reached, for
    subscriber a and every computation c the directory lists on g: either the last notification
@@ -112,4 +113,158 @@ Example c20_nonvacuous :
   chan cf 0 2 = [] /\ chan cf 2 0 = [] /\
   zlookup 0 (d_comps (n_disc (w_st (nodes cf 2)))) = Some 1 /\
   snd (exec (disc_proto ok_h) (run_from ok_h w1_ns []) ok_sched) = [EvCb 2 7 3 0 (Some 1)].
+Proof. vm_compute. repeat split; auto. Qed.
+
+(* ====================================================================== Deepening (P_Discovery2*.v)
+   The in-flight invariant is now stated with "replay": what the FIFO of pending notifications makes
+   of the subscriber's entry ([Jg] in P_Discovery2: replaying chan 0->a on a's entry gives the
+   directory's value, or a publication of a's own that the directory will act on still travels).
+   Agents and replicas: EVERY history (no operation excluded), guards = exact negations of the recorded
+   findings, stated on single steps ([along h G cf sched] : G holds before every action). *)
+
+(* Agents, in-flight invariant: [Base] (nodes 0 and a run, channel typing, directory-node invariants)
+   and [IA] = for every agent x that a is subscribed to (by name, or by '*' for x <> orchestrator) and
+   the directory lists at ad: replay of chan 0->a on a's entry for x = ad, or a publish/unpublish of x
+   by a travels to the directory.  Guard [GA]: the directory is not about to refuse an
+   un-registration published by a (finding C20-unregister-agent-refused). *)
+Theorem disc_agent_inv : forall (h : hist_t) (a : Z) (ns : list node) (sched : list (@action)),
+  0 < a -> In 0 ns -> In a ns ->
+  let P := disc_proto h in
+  let cf0 := fst (exec P (init P) (map (@Start) ns)) in
+  along h (GA a) cf0 sched ->
+  Base a (fst (exec P cf0 sched)) /\ IA a (fst (exec P cf0 sched)).
+Proof. exact disc_agent_inv_l. Qed.
+
+(* Agents, convergence (positive form): nothing travels between a and the directory => a's address
+   for every agent it is subscribed to and the directory lists is the directory's. *)
+Theorem disc_agent_converges : forall (h : hist_t) (a : Z) (ns : list node) (sched : list (@action)),
+  0 < a -> In 0 ns -> In a ns ->
+  let P := disc_proto h in
+  let cf0 := fst (exec P (init P) (map (@Start) ns)) in
+  along h (GA a) cf0 sched ->
+  let cf := fst (exec P cf0 sched) in
+  forall x ad,
+    In a (sm_get x (g_sub_agents (n_dir (w_st (nodes cf 0))))) \/
+      (In a (g_sub_all (n_dir (w_st (nodes cf 0)))) /\ x <> 0) ->
+    zlookup x (g_agents (n_dir (w_st (nodes cf 0)))) = Some ad ->
+    chan cf 0 a = [] -> chan cf a 0 = [] ->
+    zlookup x (d_agents (n_disc (w_st (nodes cf a)))) = Some ad.
+Proof. exact disc_agent_converges_l. Qed.
+
+Theorem agent_guard_check_sound : forall h a sched cf,
+  alongb h (GAb a) cf sched = true -> along h (GA a) cf sched.
+Proof. intros h a. apply alongb_sound. apply GAb_sound. Qed.
+
+(* without the guard the agent statement is false (finding C20-unregister-agent-refused) *)
+Theorem agent_agreement_unguarded_refuted :
+  exists h a ns sched x ad, 0 < a /\ In 0 ns /\ In a ns /\
+    let cf := run_from h ns sched in
+    quietb cf ns = true /\
+    In a (sm_get x (g_sub_agents (n_dir (w_st (nodes cf 0))))) /\
+    zlookup x (g_agents (n_dir (w_st (nodes cf 0)))) = Some ad /\
+    zlookup x (d_agents (n_disc (w_st (nodes cf a)))) = None.
+Proof. exact agent_agreement_unguarded_refuted_l. Qed.
+
+(* Replicas, in-flight invariant [IR] (per replica r and holder g: replay of chan 0->a on "g in a's
+   replica set of r" gives membership, or a's un-publication of (r,g) / un-subscription of r travels)
+   and convergence.  Guard [GR]: no replica handler is about to find the computation unknown -- a when
+   it is told of a replica, the directory when a subscribes (finding C20-replica-of-unknown-computation). *)
+Theorem disc_replica_inv : forall (h : hist_t) (a : Z) (ns : list node) (sched : list (@action)),
+  0 < a -> In 0 ns -> In a ns ->
+  let P := disc_proto h in
+  let cf0 := fst (exec P (init P) (map (@Start) ns)) in
+  along h (GR a) cf0 sched ->
+  Base a (fst (exec P cf0 sched)) /\ IR a (fst (exec P cf0 sched)).
+Proof. exact disc_replica_inv_l. Qed.
+
+Theorem disc_replica_converges : forall (h : hist_t) (a : Z) (ns : list node) (sched : list (@action)),
+  0 < a -> In 0 ns -> In a ns ->
+  let P := disc_proto h in
+  let cf0 := fst (exec P (init P) (map (@Start) ns)) in
+  along h (GR a) cf0 sched ->
+  let cf := fst (exec P cf0 sched) in
+  forall r g,
+    In a (sm_get r (g_sub_reps (n_dir (w_st (nodes cf 0))))) ->
+    In g (get_or_nil r (d_reps (n_disc (w_st (nodes cf 0))))) ->
+    chan cf 0 a = [] -> chan cf a 0 = [] ->
+    In g (get_or_nil r (d_reps (n_disc (w_st (nodes cf a))))).
+Proof. exact disc_replica_converges_l. Qed.
+
+Theorem replica_guard_check_sound : forall h a sched cf,
+  alongb h (GRb a) cf sched = true -> along h (GR a) cf sched.
+Proof. intros h a. apply alongb_sound. apply GRb_sound. Qed.
+
+(* Computations again, now with unregister_computation(c, agent) naming an agent (a stale
+   un-publication is consumed by the directory without any notification: the invariant only counts
+   own publications the directory will act on, [aboutc2]) and register_computation without address.
+   Partial: histories without unregister_agent (its cascade removes computations at the subscriber
+   without a computation notification); same guard as disc_comp_converges_partial. *)
+Theorem disc_comp2_inv_partial : forall (h : hist_t) (a : Z) (ns : list node) (sched : list (@action)),
+  (forall k o, In o (hist_of h k) -> frag2 o = true) -> 0 < a -> In 0 ns -> In a ns ->
+  let P := disc_proto h in
+  let cf0 := fst (exec P (init P) (map (@Start) ns)) in
+  guard_along h cf0 sched ->
+  Base a (fst (exec P cf0 sched)) /\ IC a (fst (exec P cf0 sched)).
+Proof. exact disc_comp2_inv_l. Qed.
+
+Theorem disc_comp2_converges_partial : forall (h : hist_t) (a : Z) (ns : list node) (sched : list (@action)),
+  (forall k o, In o (hist_of h k) -> frag2 o = true) -> 0 < a -> In 0 ns -> In a ns ->
+  let P := disc_proto h in
+  let cf0 := fst (exec P (init P) (map (@Start) ns)) in
+  guard_along h cf0 sched ->
+  let cf := fst (exec P cf0 sched) in
+  forall c g,
+    In a (sm_get c (g_sub_comps (n_dir (w_st (nodes cf 0))))) ->
+    zlookup c (g_comps (n_dir (w_st (nodes cf 0)))) = Some g ->
+    chan cf 0 a = [] -> chan cf a 0 = [] ->
+    zlookup c (d_comps (n_disc (w_st (nodes cf a)))) = Some g.
+Proof. exact disc_comp2_converges_l. Qed.
+
+(* Callbacks along a trace (any configuration, any action, any node n > 0): a step that makes n's
+   entry for computation c become g produces exactly one computation_added invocation per registration
+   in n's table before the step, in registration order, and leaves the table without its one-shot
+   registrations.  Partial: computation_added only (agent_added / replica_added are analogous;
+   computation_removed and replica_removed do NOT discard one-shot callbacks in discovery.py). *)
+Theorem callbacks_trace_computation_added_partial : forall (h : hist_t) (cf : config nst msg) (act : action) (n c g : Z),
+  0 < n ->
+  let P := disc_proto h in
+  let cf' := fst (step P cf act) in
+  let d := n_disc (w_st (nodes cf n)) in
+  let d' := n_disc (w_st (nodes cf' n)) in
+  zlookup c (d_comps d') = Some g -> zlookup c (d_comps d) <> Some g ->
+  filter (iscb3 c) (snd (step P cf act)) = fire (d_own d) 3 c (Some g) (get_or_nil c (d_ccbs d)) /\
+  zlookup c (d_ccbs d') = option_map drop_oneshot (zlookup c (d_ccbs d)).
+Proof. exact callbacks_trace_computation_added_l. Qed.
+
+(* non-vacuity of the three new convergence theorems: hypotheses (guards checked by computation along
+   the whole schedule, quiescence, subscription, directory entry) and conclusions *)
+Example c20_agents_nonvacuous :
+  alongb oka_h (GAb 2) (run_from oka_h w1_ns []) oka_sched = true /\
+  alongb oka_h (GAb 1) (run_from oka_h w1_ns []) oka_sched = true /\
+  let cf := run_from oka_h w1_ns oka_sched in
+  quietb cf w1_ns = true /\
+  In 2 (sm_get 3 (g_sub_agents (n_dir (w_st (nodes cf 0))))) /\ In 1 (g_sub_all (n_dir (w_st (nodes cf 0)))) /\
+  zlookup 3 (g_agents (n_dir (w_st (nodes cf 0)))) = Some 1004 /\
+  zlookup 3 (d_agents (n_disc (w_st (nodes cf 2)))) = Some 1004 /\
+  zlookup 3 (d_agents (n_disc (w_st (nodes cf 1)))) = Some 1004.
+Proof. vm_compute. repeat split; auto. Qed.
+
+Example c20_replicas_nonvacuous :
+  alongb okr_h (GRb 2) (run_from okr_h w1_ns []) okr_sched = true /\
+  let cf := run_from okr_h w1_ns okr_sched in
+  quietb cf w1_ns = true /\
+  In 2 (sm_get 0 (g_sub_reps (n_dir (w_st (nodes cf 0))))) /\
+  In 3 (get_or_nil 0 (d_reps (n_disc (w_st (nodes cf 0))))) /\
+  In 3 (get_or_nil 0 (d_reps (n_disc (w_st (nodes cf 2))))).
+Proof. vm_compute. repeat split; auto. Qed.
+
+(* the stale named un-publication of agent 1 is ignored by the directory; 1 re-subscribes and agrees *)
+Example c20_comp2_nonvacuous :
+  frag2b okc_h = true /\ fragb okc_h = false /\
+  guard_alongb okc_h (run_from okc_h w1_ns []) okc_sched = true /\
+  let cf := run_from okc_h w1_ns okc_sched in
+  quietb cf w1_ns = true /\
+  In 1 (sm_get 0 (g_sub_comps (n_dir (w_st (nodes cf 0))))) /\
+  zlookup 0 (g_comps (n_dir (w_st (nodes cf 0)))) = Some 2 /\
+  zlookup 0 (d_comps (n_disc (w_st (nodes cf 1)))) = Some 2.
 Proof. vm_compute. repeat split; auto. Qed.
